@@ -44,4 +44,29 @@ theorem restart_after_fault (s : St ι) (ws : List (Write ι)) (hf : s.failure =
   have h := (store_fail_is_failure_mode s ws hf hw).2.1
   unfold restart; rw [h]
 
+/-- a whole history after the failure: nothing moves, whatever the commands and whatever storage would answer -/
+theorem failure_sticky_history (s : St ι) (hist : List (List (Write ι) × Bool)) (h : s.failure = true) :
+    hist.foldl (fun s (c : List (Write ι) × Bool) => command s c.1 c.2) s = s := by
+  induction hist with
+  | nil => rfl
+  | cons c rest ih => simp only [List.foldl]; rw [failure_blocks s c.1 c.2 h]; exact ih
+
+/-- **the first refused commit decides the rest of the power cycle**: after a prefix of commands, a command with a
+    persistent write whose commit is refused leaves storage exactly as the prefix left it, and no later command —
+    whatever it writes, whatever storage answers — changes storage again before a re-initialisation -/
+theorem first_refusal_freezes_storage (s : St ι) (ws : List (Write ι)) (later : List (List (Write ι) × Bool))
+    (hf : s.failure = false) (hw : hasNvWrite ws = true) :
+    (later.foldl (fun s (c : List (Write ι) × Bool) => command s c.1 c.2) (command s ws false)).disk = s.disk ∧
+    (later.foldl (fun s (c : List (Write ι) × Bool) => command s c.1 c.2) (command s ws false)).failure = true := by
+  obtain ⟨h1, h2, _⟩ := store_fail_is_failure_mode s ws hf hw
+  rw [failure_sticky_history _ later h1]
+  exact ⟨h2, h1⟩
+
+/-- and the restart that follows comes up from what storage held before the refused commit -/
+theorem restart_after_frozen_history (s : St ι) (ws : List (Write ι)) (later : List (List (Write ι) × Bool))
+    (hf : s.failure = false) (hw : hasNvWrite ws = true) :
+    restart (later.foldl (fun s (c : List (Write ι) × Bool) => command s c.1 c.2) (command s ws false)) = restart s := by
+  have h := (first_refusal_freezes_storage s ws later hf hw).1
+  unfold restart; rw [h]
+
 end TpmVerif.Props.C07
